@@ -734,6 +734,19 @@ sqf::runtime::runtime::result sqf::runtime::runtime::execute(sqf::runtime::runti
             if (m_run_atomic.compare_exchange_strong(expected, true)) { owns_run = true; break; }
         }
     }
+    else
+    {
+        // Called without waiting (from an operator inside a run, or - the preprocessor's __EVAL - with no run
+        // at all): if nobody is executing, this evaluation takes the executor's place just the same.
+        expected = false;
+        if (m_run_atomic.compare_exchange_strong(expected, true)) { owns_run = true; }
+    }
+    if (owns_run)
+    { // a run of its own: what ended an earlier run (stop request, runtime limit) is not its business
+        m_is_exit_requested = false;
+        m_is_halt_requested = false;
+        m_run_timestamp = std::chrono::system_clock::now();
+    }
     auto finish = [&]() {
         if (owns_run) { m_run_atomic = false; }
         m_evaluate_halt = false;
